@@ -420,7 +420,7 @@ func (x *c04ctx) issuePoint() string {
 		if condIsHeaderEmpty(g.If.Cond, "Mcp-Session-Id") == boolToPolarity(g.Branch) {
 			hdrEmpty = true
 		}
-		if g.Branch && boolFromCompare(cr.fn, g.If.Cond, "initialize", 0) {
+		if g.Branch && boolFromCompare(c, cr.fn, g.If.Cond, "initialize", 0) {
 			isInit = true
 		}
 	}
@@ -458,7 +458,7 @@ func (x *c04ctx) issuePoint() string {
 	}
 	// missing-id, not initialize: 400
 	for _, g := range guards {
-		if g.Branch && boolFromCompare(cr.fn, g.If.Cond, "initialize", 0) {
+		if g.Branch && boolFromCompare(c, cr.fn, g.If.Cond, "initialize", 0) {
 			other := g.If.Block().Succs[1]
 			esc := exitsFromBlockAvoiding(cr.fn, other, func(in ssa.Instruction) bool {
 				s, ok := httpErrorStatus(in)
@@ -512,7 +512,7 @@ func condIsHeaderEmpty(cond ssa.Value, key string) int {
 
 // boolFromCompare: the boolean v is (or is a phi whose true inputs are only assigned under) a
 // comparison of some string with the constant want.
-func boolFromCompare(fn *ssa.Function, v ssa.Value, want string, depth int) bool {
+func boolFromCompare(c *Ctx, fn *ssa.Function, v ssa.Value, want string, depth int) bool {
 	if depth > 4 {
 		return false
 	}
@@ -526,6 +526,25 @@ func boolFromCompare(fn *ssa.Function, v ssa.Value, want string, depth int) bool
 				return true
 			}
 		}
+	case *ssa.Parameter:
+		// the decision was made by the callers and handed down (helper extracted from the handler)
+		idx := -1
+		for i, p := range fn.Params {
+			if p == x {
+				idx = i
+			}
+		}
+		all := false
+		for _, e := range ir.Callers(c.G, fn) {
+			if e.Site == nil || !c.P.IsLib(e.Caller.Func) || idx < 0 || idx >= len(e.Site.Common().Args) {
+				continue
+			}
+			if !boolFromCompare(c, e.Caller.Func, e.Site.Common().Args[idx], want, depth+1) {
+				return false
+			}
+			all = true
+		}
+		return all
 	case *ssa.Phi:
 		found := false
 		for i, e := range x.Edges {
@@ -534,7 +553,7 @@ func boolFromCompare(fn *ssa.Function, v ssa.Value, want string, depth int) bool
 					pred := x.Block().Preds[i]
 					okEdge := false
 					for _, g := range flow.Guards(fn, pred) {
-						if g.Branch && boolFromCompare(fn, g.If.Cond, want, depth+1) {
+						if g.Branch && boolFromCompare(c, fn, g.If.Cond, want, depth+1) {
 							okEdge = true
 						}
 					}
@@ -545,7 +564,7 @@ func boolFromCompare(fn *ssa.Function, v ssa.Value, want string, depth int) bool
 				}
 				continue
 			}
-			if !boolFromCompare(fn, e, want, depth+1) {
+			if !boolFromCompare(c, fn, e, want, depth+1) {
 				return false
 			}
 			found = true
@@ -789,14 +808,35 @@ func (x *c04ctx) stateless(flag string) {
 			continue
 		}
 		fn := a.Fn
+		site := a.Instr
 		var ifi *ssa.If
-		ir.EachInstr(fn, func(_ *ssa.BasicBlock, _ int, in ssa.Instruction) {
-			if i, ok := in.(*ssa.If); ok {
-				if f, _, ok := ir.LoadedField(i.Cond); ok && f.Key() == flag {
-					ifi = i
+		findTest := func(f *ssa.Function) *ssa.If {
+			var found *ssa.If
+			ir.EachInstr(f, func(_ *ssa.BasicBlock, _ int, in ssa.Instruction) {
+				if i, ok := in.(*ssa.If); ok {
+					if fl, _, ok := ir.LoadedField(i.Cond); ok && fl.Key() == flag {
+						found = i
+					}
+				}
+			})
+			return found
+		}
+		// the registration may sit in a helper extracted from the handler: judge the (single) caller then
+		for lvl := 0; lvl < 3; lvl++ {
+			if ifi = findTest(fn); ifi != nil {
+				break
+			}
+			var sites []ssa.CallInstruction
+			for _, e := range ir.Callers(c.G, fn) {
+				if e.Site != nil && c.P.IsLib(e.Caller.Func) {
+					sites = append(sites, e.Site)
 				}
 			}
-		})
+			if len(sites) != 1 {
+				break
+			}
+			fn, site = sites[0].Parent(), sites[0]
+		}
 		construct := "GET in stateless mode (" + fname(fn) + ")"
 		if ifi == nil {
 			c.R.Violate("R-stateless", construct, c.Pos(a.Pos), sprintf("%s registers a listening stream without testing the stateless flag %s", fname(fn), flag))
@@ -807,7 +847,7 @@ func (x *c04ctx) stateless(flag string) {
 			return ok && s == 405
 		})
 		c.R.Check(esc == nil, "R-stateless", construct+": 405", ipos(c, ifi), "stateless edge answers 405 on every path", "the stateless edge of the GET handler does not answer 405 on every path")
-		c.R.Check(flow.Dominates(ifi, a.Instr), "R-stateless", construct+": before registration", ipos(c, ifi), "the stateless test dominates the stream registration",
+		c.R.Check(flow.Dominates(ifi, site), "R-stateless", construct+": before registration", ipos(c, ifi), "the stateless test dominates the stream registration",
 			"the listening stream is registered on a path that has not passed the stateless test")
 	}
 	c.R.Min("R-stateless", 3)
